@@ -2,7 +2,8 @@
 
 spec/PeerTracker.tla: per-peer state (known, connections, trusted, archival, kind, protect tags), the
 published PeerTrackerInfo written only where the code recounts, per-tag counters kept incrementally;
-one action per tracker method, gc forgetting any subset of unconnected unprotected peers.
+one action per tracker method; Age(p) (hook moving disconnected_at 121 s into the past) makes a disconnected
+peer old, gc forgets exactly the old, unconnected, unprotected peers.
   MC:   invariants InfoIsRecount, TagsAreRecount, action property GcKeeps, exhaustive small scope.
   ->B:  Gen_PeerTracker prints the complete transition relation; h-track drives the real tracker into each
         pre-state, applies the operation, compares result / views / published info / tag counters.
@@ -18,7 +19,7 @@ PROPS = ["C39"]
 ENTRIES = {
     "C39": {
         "text": "spec/PeerTracker.tla has one action per PeerTracker method (add_peer_id, set_trusted, protect, "
-                "unprotect, add/remove_connection, on_agent_version, mark_as_archival, on_ping, gc) over per-peer "
+                "unprotect, add/remove_connection, on_agent_version, mark_as_archival, on_ping, gc, plus ageing of a disconnected peer past gc's 120 s limit) over per-peer "
                 "state, the published PeerTrackerInfo (rewritten only where the code recounts) and incrementally "
                 "kept per-tag counters; TLC checks exhaustively (2 peers x 2 connections x 2 tags quick, 3 peers "
                 "thorough) that the published info equals a recount, the tag counters equal the number of peers "
@@ -27,8 +28,9 @@ ENTRIES = {
                 "peer views, watch-channel value, info() and protected_len; seeded histories of 10^3 events over "
                 "8 peers x 3 connections x 3 tags are validated line by line by Trace_PeerTracker.",
         "design_ref": "7 C39",
-        "note": "Expiry of disconnected peers (120 s of real Instant) is never forced: gc is only judged on never "
-                "forgetting connected or protected peers. Ping bookkeeping is exercised but not compared. "
+        "note": "Expiry of disconnected peers is reached through a cfg(eigerco_lumina_verif) hook that moves the stored "
+                "disconnected_at Instant 121 s into the past (real time is never waited for), for protected and "
+                "unprotected, never-connected and disconnected peers. Ping bookkeeping is exercised but not compared. "
                 "Exhaustive only in the small scope; 8x3x3 is sampled.",
         "technique": "TLA+ spec + TLC exhaustive transition table replayed into Rust; TLC trace validation of recorded histories",
     },
@@ -66,7 +68,7 @@ def run(ck):
         mc = ck.cfg_with("MC_PeerTracker.cfg", {"NP": 3, "NC": 2, "NT": 1, "Kinds": "{0, 2, 3}"})
     ck.tlc_mc("MC_PeerTracker", mc, required_actions=[
         "AddPeerId", "SetTrusted", "Protect", "Unprotect", "AddConnection", "RemoveConnection", "AgentVersion",
-        "MarkArchival", "Ping", "Gc"])
+        "MarkArchival", "Ping", "Gc", "Age"])
     # 2. spec -> impl: the transition relation
     nt = 1 if ck.quick else 2
     gen = ck.cfg_with("Gen_PeerTracker.cfg", {"NP": 2, "NC": 2, "NT": nt,
@@ -86,7 +88,7 @@ def run(ck):
     ck.cov["rule"] = ("spec->impl: every transition (operation x argument) of every reachable state of the small "
                       "scope; non-trivial = distinct (op, args, pre-state) whose post-state differs. impl->spec: "
                       "recorded events; non-trivial = distinct (op, args, pre-views) that changed the views.")
-    ck.assumptions += ["gc expiry (120 s of real time) is not forced; only 'never forgets connected/protected' is judged",
+    ck.assumptions += ["gc expiry is produced by ageing disconnected_at through a verification hook, not by waiting 120 s",
                        "connection ids are unique per peer (as libp2p hands them out)"]
 
 
